@@ -13,7 +13,8 @@
 (***************************************************************************)
 EXTENDS Naturals, Sequences, FiniteSets, TLC
 
-Wrappers == {"newtype", "alias", "salias", "final", "classvar"}
+\* ("noinit": a dataclass field declared with field(init=False, default=..); "annotated": Annotated[X, ..])
+Wrappers == {"newtype", "alias", "salias", "final", "classvar", "noinit", "annotated"}
 IsNoneT(T) == T.k = "prim" /\ T.n = "NoneType"
 
 \* --- which value terms are instances of a primitive kind (Python isinstance semantics) -------------
